@@ -50,6 +50,7 @@ THEOREMS = [
     "SleapVerif.C20.nonfinite_rejected",
     "SleapVerif.C20.validators_reject_nan",
     "SleapVerif.C20.oneof_rejects",
+    "SleapVerif.C20.oneof_verdict_depends_on_fields_only",
     "SleapVerif.C20.which_oneof_raises",
     "SleapVerif.C20.oneof_rejects_after_assignment",
     "SleapVerif.C20.builders_history_independent",
@@ -609,7 +610,10 @@ class Impl:
             cls = self.classes[case["cls"]]
             kw = {f: self.classes[c]() for f, c in case["set"].items()}
             kwt = {f: self.defaults[c] for f, c in case["set"].items()}
-            return [f"mk {case['cls']} {toks(kwt)}"], self.observe(cls, **kw)
+            # `pos` leading fields (order of attrs.fields) are passed POSITIONALLY (None where not set), the rest by keyword
+            order = [a.name for a in cls.__attrs_attrs__][:case.get("pos", 0)]
+            args = [kw.pop(f, None) for f in order]
+            return [f"mk {case['cls']} {toks(kwt)}"], self.observe(cls, *args, **kw)
         if op == "verify":
             cfg = self.OC.create(case["cfg"])
             r = call(self.tj.verify_training_cfg, cfg)
@@ -1295,6 +1299,13 @@ VALID_EDGE = [
 ]
 
 
+ONEOF_ORDER = {}      # class -> field names in attrs.fields order; filled in main from the working tree
+
+
+def fields_in_order(cls, fields):
+    return [f for f in ONEOF_ORDER.get(cls, sorted(fields)) if f in fields]
+
+
 def invalid_cases():
     for cls, f, bads, route in INVALID:
         for b in bads:
@@ -1328,6 +1339,16 @@ def invalid_cases():
             for sub in itertools.combinations(sorted(fields), n):
                 yield {"op": "oneof", "cls": cls, "set": {f: fields[f] for f in sub},
                        "expect": "reject" if n > 1 else "accept", "field": f"{cls}.oneof"}
+    # the same verdict however the members are passed: positional, mixed positional / keyword (every @oneof class)
+    for cls, fields in (("BackboneConfig", bb), ("HeadConfig", hd)):
+        order = list(fields_in_order(cls, fields))
+        for n in range(0, 4):
+            for sub in itertools.combinations(order, n):
+                for pos in range(1, len(order) + 1):
+                    yield {"op": "oneof", "cls": cls, "set": {f: fields[f] for f in sub}, "pos": pos,
+                           "expect": "reject" if n > 1 else "accept", "field": f"{cls}.oneof",
+                           "shown": f"{cls}(" + ", ".join([(fields[f] + "()" if f in sub else "None") for f in order[:pos]] +
+                                                          [f"{f}={fields[f]}()" for f in sub if f not in order[:pos]]) + ")"}
     # pre-trained weights must match the backbone family
     for b, w, exp in [("unet", "Swin_T_Weights", "reject"), ("convnext", "Swin_T_Weights", "reject"),
                       ("swint", "ConvNeXt_Tiny_Weights", "reject"), ("swint", "Swin_S_Weights", "accept"),
@@ -2257,6 +2278,12 @@ def main(chk: Check):
     replay_known(chk, impl)
     impl.env_lines()                     # computes impl.defaults (the schema trees) from the working tree
     defaults_audit(chk, impl)
+    for n, c in impl.classes.items():
+        if hasattr(c, "which_oneof"):
+            ONEOF_ORDER[n] = [a.name for a in c.__attrs_attrs__]
+    if set(ONEOF_ORDER) != {"BackboneConfig", "HeadConfig"}:
+        chk.fail(f"C20: the @oneof classes are {sorted(ONEOF_ORDER)}, the check covers BackboneConfig and HeadConfig",
+                 {"op": "oneof-classes"}, sorted(ONEOF_ORDER))
     cases = build_cases(chk, impl)
     cases += verify_cases(chk, impl)
     corpus = sorted((chk_path("corpus") / "C20").glob("*.json")) if (chk_path("corpus") / "C20").is_dir() else []
